@@ -7,6 +7,7 @@ package, the callee's body).  Nothing here decides anything: it only produces na
 `path condition => claim`, discharged by pyvc.solve.
 """
 import ast
+import os
 import itertools
 import z3
 
@@ -191,6 +192,7 @@ class Executor(object):
         self.trace = []
         if not hasattr(self, 'path_traces'):
             self.path_traces = set()
+            self.path_trace_pcs = {}
         self.loop_counter = {}
         self.frames = []
         self.mode = 'code'
@@ -611,7 +613,10 @@ class Executor(object):
         for e in self.trace:
             out = e.get('outcome')
             ev.append((e['callee'], 'pending' if out is None else (out[0] if out[0] == 'return' else 'raise:%s' % out[1])))
-        self.path_traces.add((tuple(ev), end))
+        key = (tuple(ev), end)
+        self.path_traces.add(key)
+        if os.environ.get('PYVC_SKELETON_PC') and key not in self.path_trace_pcs:
+            self.path_trace_pcs[key] = list(self.pc)
 
     def cover(self, label, contract):
         if self.emitting():
